@@ -45,7 +45,7 @@ def base_scenarios(rng, real=False):
 def dry_keys(spec):
     s = copy.deepcopy(spec)
     s['seed'] = 1
-    obs = scenario.run(s)
+    obs = e2e.run_any(s)
     keys = list(dict.fromkeys(obs.world.director.keys_seen))
     bodies = {}
     for e in obs.events:
